@@ -62,7 +62,7 @@ FLOORS = {
         'refused_step_state_checked': 50, 'steps_claim_compared': 500, 'commutation_checked': 300,
         'substitutions_converted': 300, 'parametric_symbols_used': 20, 'cell_symbols_used': 20,
         'modules_serialised': 300, 'modules_accepted_by_checker': 300, 'modules_accepted_by_o2': 300,
-        'serialised_claims_compared': 500, 'hint_traces': 150, 'builder_traces': 100, 'scope_sequences': 100,
+        'serialised_claims_compared': 500, 'hint_traces': 150, 'hint_traces_with_ignored_events': 40, 'builder_traces': 100, 'scope_sequences': 100,
         'multi_module_definitions': 20, 'equational_axioms_aligned': 10,
     },
 }
@@ -498,9 +498,24 @@ class CaseRunner:
         ctx, R, c = self.ctx, self.R, self.case
         n = len(tr.steps)
         events = []
+        noisy = False
         for st in tr.steps:
+            # events the front end documents as ignored (side conditions, function and hook events) may precede a rule event
+            if self.aux.random() < 0.3:
+                from proof_generation import llvm_proof_hint as H
+                for _ in range(self.aux.randint(1, 2)):
+                    kind = self.aux.choice(('side', 'function', 'hook'))
+                    if kind == 'side':
+                        events.append(H.LLVMSideCondEvent(c.rules[st.rule].ordinal, tuple(st.sigma.items())))
+                    elif kind == 'function':
+                        events.append(H.LLVMFunctionEvent('Lblf{}', '0:0', ()))
+                    else:
+                        events.append(H.LLVMHookEvent('INT.add', '0:1', (), tr.init))
+                    noisy = True
             events.append(R.LLVMRuleEvent(c.rules[st.rule].ordinal, tuple(st.sigma.items())))
             events.append(st.after)
+        if noisy:
+            ctx.count('hint_traces_with_ignored_events')
         llvm = R.LLVMRewriteTrace((), tr.init, tuple(events))
         try:
             hints = list(R.get_proof_hints(llvm, sem))
